@@ -293,6 +293,7 @@ def run_case(case):
 
 
 PROP = Property(
+    prelude=True,
     id="C09",
     level="exploration",
     rule=("Hypothesis generates /proc/net/dev (0-12 NICs, names with ':' "
